@@ -175,6 +175,12 @@ func (c *NoiseGrpcConn) ClientHandshake(_ context.Context, _ string,
 
 	log.Debugf("Starting client handshake")
 
+	// A handshake starts a new stream: plaintext of a previous connection
+	// that was decrypted but not read yet must not be handed out on it.
+	c.nextMsgMtx.Lock()
+	c.nextMsg = nil
+	c.nextMsgMtx.Unlock()
+
 	transportConn, ok := conn.(ProxyConn)
 	if !ok {
 		return nil, nil, fmt.Errorf("invalid connection type")
@@ -235,6 +241,12 @@ func (c *NoiseGrpcConn) ServerHandshake(conn net.Conn) (net.Conn,
 	defer c.proxyConnMtx.Unlock()
 
 	log.Tracef("Starting server handshake")
+
+	// A handshake starts a new stream: plaintext of a previous connection
+	// that was decrypted but not read yet must not be handed out on it.
+	c.nextMsgMtx.Lock()
+	c.nextMsg = nil
+	c.nextMsgMtx.Unlock()
 
 	transportConn, ok := conn.(ProxyConn)
 	if !ok {
